@@ -99,4 +99,13 @@ PROPS = {
         ],
         "assumptions": ["a loop program (mark/jump) whose counter bounds the iteration depth; unbounded loops over cyclic data do not terminate by construction and are not requests this check sends"],
     },
+    "C05": {
+        "translators": ["AuthTables"],
+        "trusted_base": [
+            "the translator harness/cmd/translate (go/ast): extraction of the ServiceDescs, MethodMap, the case lists of getUnaryRequestGraph, per stream case whether an access.Enforce(user, graph, op) call with an error return dominates the handler call, the defaults for unlisted streams, BulkWriteFilter.RecvMsg's shape, and the interceptor arguments of every New*DirectClient / grpc.NewServer call in server/server.go; unknown shapes are emitted as `unrecognised`, which fails C05_wiring (fail closed)",
+            "Model/Auth.v: the control flow of unaryAuthInterceptor / streamAuthInterceptor over those tables (hand-written; compared with the real interceptors on every run through the verif-tagged constructor)",
+            "Authenticate.Validate and Access.Enforce are parameters of the theorems (BasicAuth / ProxyAuth / casbin decide, their correctness is not the property)",
+        ],
+        "assumptions": ["the generated gRPC handlers pass every call through the registered interceptor (grpc-go)", "HTTP gateway requests reach the same handlers through the Direct clients (extracted wiring)"],
+    },
 }
